@@ -188,6 +188,56 @@ func vfFlowServerScenario(tb testing.TB, env *vfEnv, tn int, rnd *rand.Rand) {
 	// while more DATA arrives; the client keeps within the windows it has been told about.
 	blockedW := tn%5 == 2
 	blockAt := 8 + rnd.Intn(12)
+	// closedBodyPad: the handler closes the request body while the client keeps sending padded DATA:
+	// the whole frame (payload and padding) must come back as connection-level credit (C10).
+	if tn%5 == 4 {
+		id := nextID
+		nextID += 2
+		st.writeHeaders(HeadersFrameParam{StreamID: id, BlockFragment: st.encodeHeader(":method", "POST", ":path", "/cb"), EndStream: false, EndHeaders: true})
+		d.emit(map[string]any{"e": "open", "s": id, "body": true, "decl": -1})
+		str := &vfFlowStream{id: id, decl: -1}
+		d.strs[id] = str
+		d.order = append(d.order, id)
+		d.sa[id] = d.siw
+		st.sync()
+		st.callsMu.Lock()
+		ncalls := len(st.calls)
+		st.callsMu.Unlock()
+		if ncalls == 0 {
+			str.exited = true
+		} else {
+			str.call = st.nextHandlerCall()
+			d.settle()
+			str.bodyGone = true
+			d.emit(map[string]any{"e": "a_closebody", "s": id})
+			d.async(str, func(w http.ResponseWriter, r *http.Request) map[string]any {
+				r.Body.Close()
+				return nil
+			})
+			d.settle()
+			for j := 0; j < 2+rnd.Intn(2) && !d.dead; j++ {
+				room := d.ca
+				if d.sa[id] < room {
+					room = d.sa[id]
+				}
+				pad := 1 + rnd.Intn(200)
+				ln := pad + 1 + rnd.Intn(300)
+				if int64(ln) > room {
+					break
+				}
+				pay := make([]byte, ln-pad)
+				for i := range pay {
+					pay[i] = vfPat(id, str.sentPay+i)
+				}
+				str.sentPay += len(pay)
+				st.writeDataPadded(id, false, pay, make([]byte, pad-1))
+				d.emit(map[string]any{"e": "p_data", "s": id, "len": ln, "pad": pad, "es": false})
+				d.ca -= int64(ln)
+				d.sa[id] -= int64(ln)
+				d.settle()
+			}
+		}
+	}
 	for k := 0; k < nops && !d.dead; k++ {
 		var open []*vfFlowStream
 		for _, id := range d.order {
